@@ -7,6 +7,11 @@ from checkcfg import PROPS
 BASELINE = json.load(open('/root/.vp/BASELINE.json'))['cmd'] if os.path.exists('/root/.vp/BASELINE.json') else ''
 
 TEXT = {
+ "C11": dict(
+   technique="stateful property-based testing (rapid state machine) of mwdb+ldb against an in-memory nested-map reference model",
+   text="Generated histories of write transactions (nested bucket create/delete to depth 4, put/delete/clear, point/prefix reads, listings; keys with 0x00/0xff runs, '_' separators, depth-prefix and bucket-index look-alikes) ending in commit, error return or rollback, with a concurrent read transaction opened inside the write transaction (isolation), read-only audits after every transaction (point reads, prefix reads, nil/prefix/explicit-range iteration ascending-once, seek) and close/reopen, are executed on the real LevelDB-backed wallet database and on a nested-map model; every observable is compared after every step. Exploration: sampled histories (hundreds quick, thousands thorough), not exhaustive.",
+   note="Trusted: goleveldb. Ordering is asserted only for committed entries (as the statement says), not for iterators inside a write transaction with pending changes; the result of re-creating a bucket created earlier in the same transaction and Bucket() lookups of a bucket deleted earlier in the same transaction are not asserted (the statement covers point reads, prefix reads and listings). Each case costs ~0.2 s because the repository opens LevelDB with a 128 MiB write buffer.",
+   ref="DESIGN.md §3 C11"),
  "C16": dict(
    technique="property-based testing (rapid) differential against the consensus txscript library (GetScriptClass / ExtractPkScriptAddrs) + independent byte-template predicate + builder round trips; native go fuzzing over raw script bytes in thorough",
    text="Scripts generated from the three witness templates (random hashes, legal/edge/illegal frozen periods, 20- and 22-byte targets incl. illegal target types), nulldata, multisig, non-canonical pushes, each optionally truncated / bit-flipped / extended / re-pushed, and random bytes, are read by utils.ParsePkScript; class, owner address, staking/binding address, maturity and address class must agree with the consensus library, every non-template class must read as the ErrUnsupportedScript sentinel, and nothing may panic. Scripts built by PayToWitnessV0Address / PayToStakingAddrScript / PayToBindingScriptHashScript (the constructors the wallet uses) must read back to exactly the inputs. The nulldata defect found this way was repaired (fix: 26e48e1). Exploration: sampled.",
